@@ -270,7 +270,7 @@ def report_build_problems(ck, items, pid):
 
 # ------------------------------------------------------------------ C01 / C02 (tree properties)
 
-def tree_check(work, pid, oracle, level_text, gen_opts=None, need=None, cases_fn=None, with_k1=True, n_quick=(40, 40), n_thorough=(600, 120), maxlen=30, prefilter=None, with_repo=False, k2_on_items=False):
+def tree_check(work, pid, oracle, level_text, gen_opts=None, need=None, cases_fn=None, with_k1=True, n_quick=(40, 40), n_thorough=(600, 120), maxlen=30, prefilter=None, with_repo=False, k2_on_items=False, with_kb=True):
     ck = lv.Check(pid, level_for(pid))
     quick = ck.tier == 'quick'
     st = proof_step(ck, pid)
@@ -326,6 +326,16 @@ def tree_check(work, pid, oracle, level_text, gen_opts=None, need=None, cases_fn
             df = k2.compare(it['res']['dump'], it['res']['diags'], m, ids)
             if df:
                 k2dis.append({'grammar': it['text'], 'what': df[0]})
+
+    # ---- KB: the back-end model (Compile.v) must produce, for every accepted grammar of this run, the very program
+    # the translator reads off the emitted parser (a static tie: it holds for all inputs of that grammar at once)
+    kbn = kbskip = 0
+    kbdiffs = []
+    if with_kb:
+        import kb
+        kb_items = [it for it in all_items + citems if 'pb' in it]
+        kbn, kbskip, kbd = kb.compare_items(kb_items, max_nodes=(400 if quick else 900))
+        kbdiffs = [{'grammar': it['text'], 'what': d} for it, d in kbd]
 
     kf = known.Known(pid)
     evals = 0
@@ -389,8 +399,10 @@ def tree_check(work, pid, oracle, level_text, gen_opts=None, need=None, cases_fn
             broken.append('tie: %d emitted parsers could not be translated/compiled; first: %s: %s' % (len(probs), probs[0][0], probs[0][1]))
         if k2dis:
             broken.append('K2 correspondence (Sema.v vs SemanticPass) on the grammars of this run: %d disagree; first: %s' % (len(k2dis), json.dumps(k2dis[0])[:1200]))
+        if kbdiffs:
+            broken.append('KB correspondence (Compile.v vs the program translated from the emitted parser): %d of %d grammars differ; first: %s' % (len(kbdiffs), kbn, json.dumps(kbdiffs[0])[:1500]))
         if broken:
-            ck.violation('; '.join(broken)[:3000], {'broken': broken, 'k1': k1dis[:3], 'k3': disagreements[:3],
+            ck.violation('; '.join(broken)[:3000], {'broken': broken, 'k1': k1dis[:3], 'k3': disagreements[:3], 'kb': kbdiffs[:3],
                                                    'build_problems': [(a, b, c) for a, b, c in probs[:3]]}, no_input=True)
     ck.known = kf.lines()
     samples = []
@@ -401,8 +413,9 @@ def tree_check(work, pid, oracle, level_text, gen_opts=None, need=None, cases_fn
     if hs:
         samples.append({'k1_history': hs[min(5, len(hs) - 1)]})
     nthm = len(st['theorems'])
-    obligations = nthm + 3
-    discharged = (nthm if not proof_broken(st) else 0) + (0 if k1dis else 1) + (0 if disagreements else 1) + (0 if probs else 1)
+    obligations = nthm + 3 + (1 if with_kb else 0)
+    discharged = (nthm if not proof_broken(st) else 0) + (0 if k1dis else 1) + (0 if disagreements else 1) + (0 if probs else 1) \
+        + (1 if with_kb and not kbdiffs else 0)
     ck.cov = {
         'obligations': obligations, 'discharged': discharged,
         'checker_cmd': 'make -C coq (coq_makefile, full .vo) ; coqc -Q . LV Props/%s.v (Print Assumptions parsed) ; source audit grep' % pid,
@@ -410,6 +423,8 @@ def tree_check(work, pid, oracle, level_text, gen_opts=None, need=None, cases_fn
         'theorems': st['theorems'],
         'explanation': level_text,
         'k2_grammars': k2n, 'k2_disagreements': len(k2dis),
+        'kb_backend_model': {'grammars_compared_program_equal': kbn - len(kbdiffs), 'differ': len(kbdiffs), 'skipped_too_large_or_unresolved': kbskip,
+                             'what': 'Compile.compile g (Sema.analyse g) = translation of the emitted generated.rs, up to rule/message naming and pattern order'},
         'repo_grammars': [it['repo_file'] for it in ritems if 'pb' in it and it['pb'].rustc_ok],
         'frontend_parser_token_diff_vs_regenerated': next((it.get('token_diff') for it in ritems if 'token_diff' in it), None),
         'programs': len(run_items), 'evaluations': evals + len(hs), 'distinct_nontrivial': len(distinct) + k1stats['valid_complete'],
@@ -741,7 +756,7 @@ def cases_c16(ck, it, n):
 def check_C16(work, args):
     tree_check(work, 'C16', oracles.make_oracle_c16(),
                'skipped tokens are transparent: K3 correspondence + pairwise comparison of parses with and without trivia',
-               gen_opts=dict(skip=1.0), cases_fn=cases_c16, with_k1=True, with_repo=True)
+               gen_opts=dict(skip=1.0), cases_fn=cases_c16, with_k1=True, with_repo=True, with_kb=False)
 
 
 # ------------------------------------------------------------------ C19 (driver)
